@@ -185,6 +185,18 @@ func (en *Env) eval(e Expr) Term {
 		}
 		return Term{res, t.Sort, en.sliceTy(t.Ty)}
 	case EQuant:
+		if ts, ok := x.Lo.(EStr); ok && x.Hi == nil {
+			ty, err := c.eng.resolveType(en.pkg, ts.V)
+			if err != nil {
+				en.fail("%v", err)
+			}
+			v := fmt.Sprintf("%s!o%d", x.Var, en.depth)
+			sub := en.with(map[string]Term{x.Var: {v, SInt, ty}})
+			sub.depth = en.depth + 1
+			body := sub.eval(x.Body)
+			en.wantBool(body, x.Body)
+			return Term{fmt.Sprintf("(forall ((%s Int)) %s)", v, implies(not(app("=", v, "0")), body.S)), SBool, tBool}
+		}
 		lo := en.eval(x.Lo)
 		hi := en.eval(x.Hi)
 		v := fmt.Sprintf("%s!q%d", x.Var, en.depth)
@@ -503,6 +515,26 @@ func (en *Env) evalCall(x ECall) Term {
 	case "max":
 		a := args()
 		return Term{ite(app(">=", a[0].S, a[1].S), a[0].S, a[1].S), SInt, tInt}
+	case "mget": // dom-aware map read: the zero value when the key is absent (or the map is nil)
+		a := args()
+		if a[0].Ty == nil {
+			en.fail("mget: untyped map")
+		}
+		m, ok := types.Unalias(a[0].Ty).Underlying().(*types.Map)
+		if !ok {
+			en.fail("mget: not a map")
+		}
+		in := and(not(app("=", a[0].S, "0")), app("select", app("select", c.heapGet(en.cur, mapDomKey(a[0].Ty)), a[0].S), a[1].S))
+		val := app("select", app("select", c.heapGet(en.cur, mapKey(a[0].Ty)), a[0].S), a[1].S)
+		return en.mk(ite(in, val, c.zeroValue(m.Elem())), m.Elem())
+	case "mapempty": // the map has no entries
+		a := args()
+		m, ok := types.Unalias(a[0].Ty).Underlying().(*types.Map)
+		if !ok {
+			en.fail("mapempty: not a map")
+		}
+		dom := app("select", c.heapGet(en.cur, mapDomKey(a[0].Ty)), a[0].S)
+		return Term{app("=", dom, fmt.Sprintf("((as const (Array %s Bool)) false)", c.ss.SortOf(m.Key()))), SBool, tBool}
 	case "has": // key in map domain
 		a := args()
 		if a[0].Ty == nil {
@@ -766,6 +798,16 @@ func (en *Env) EvalLValue(e Expr) (loc assignLoc, err error) {
 				base := en.eval(x.Args[0])
 				return assignLoc{keys: []string{key}, ref: base.S}, nil
 			}
+		case "anymapof": // contents of every map of the given type
+			ts, ok := x.Args[0].(EStr)
+			if !ok {
+				en.fail("anymapof(\"map[K]V\")")
+			}
+			ty, err := en.c.eng.resolveType(en.pkg, ts.V)
+			if err != nil {
+				en.fail("%v", err)
+			}
+			return assignLoc{keys: []string{mapKey(ty), mapDomKey(ty)}, all: true}, nil
 		case "global":
 			ns, ok := x.Args[0].(EStr)
 			if !ok {
